@@ -168,3 +168,58 @@ def solb_metric_unrow(row, dim):
     if dim == 2:
         return (row[0], row[1], 0.0, row[2], 0.0, 1.0)
     return (row[0], row[1], row[3], row[2], row[4], row[5])
+
+
+PRI_FACES_Q = [(0, 3, 4, 1), (1, 4, 5, 2), (0, 2, 5, 3)]   # refine f2n for prisms (quad faces)
+PRI_FACES_T = [(0, 1, 2), (3, 5, 4)]                        # and the two triangle faces
+
+
+def prism_slab(nx, ny, nz, rng=None, jitter=0.0, lengths=(1.0, 1.0, 0.3), big_ids=False):
+    """a triangulated nx x ny square extruded into nz layers of prisms: boundary has triangles (bottom/top) AND
+    quadrilaterals (the four sides) -- the mixed-boundary case of the UGRID readers"""
+    v2, t2, _ = square_tris(nx, ny, rng, jitter, lengths[:2])
+    nv2 = len(v2)
+    verts = []
+    for k in range(nz + 1):
+        for p in v2:
+            verts.append((p[0], p[1], lengths[2] * k / nz))
+    pris = []
+    for k in range(nz):
+        for t in t2:
+            a, b, c = t[:3]
+            lo = [a + k * nv2, b + k * nv2, c + k * nv2]
+            hi = [x + nv2 for x in lo]
+            n = lo + hi
+            # positive orientation for refine's sub-tet (0,4,5,3)
+            if tet_vol(verts[n[0]], verts[n[4]], verts[n[5]], verts[n[3]]) < 0:
+                n = [lo[0], lo[2], lo[1], hi[0], hi[2], hi[1]]
+            pris.append(tuple(n) + (0,))
+    base = 1000000 if big_ids else 0
+    tcount, qcount = {}, {}
+    for p in pris:
+        for f in PRI_FACES_T:
+            tri = tuple(p[i] for i in f)
+            tcount.setdefault(tuple(sorted(tri)), []).append(tri)
+        for f in PRI_FACES_Q:
+            q = tuple(p[i] for i in f)
+            qcount.setdefault(tuple(sorted(q)), []).append(q)
+    tris, quas = [], []
+    for key, lst in sorted(tcount.items()):
+        if len(lst) == 1:
+            z = verts[lst[0][0]][2]
+            tris.append(lst[0] + (base + (1 if z == 0.0 else 2),))
+    for key, lst in sorted(qcount.items()):
+        if len(lst) == 1:
+            q = lst[0]
+            xs = [verts[i][0] for i in q]
+            ys = [verts[i][1] for i in q]
+            if max(ys) == 0.0:
+                fid = 3
+            elif min(xs) == lengths[0]:
+                fid = 4
+            elif min(ys) == lengths[1]:
+                fid = 5
+            else:
+                fid = 6
+            quas.append(q + (base + fid,))
+    return verts, {'pri': pris, 'tri': tris, 'qua': quas}
